@@ -28,6 +28,16 @@ SAMPLE_EVERY = 211
 PARAMS = ["a", "b", "c"]
 NAME_POOL = ["BusStopInfo", "SceneChange", "QuickStartGuide", "RefreshFinishedList", "StatusUpdatedView", "NonStop"]
 VAL = {"a": 1, "b": 2, "c": 3}
+# a fourth, container-valued event parameter `d` (some programs): a pattern may mention any non-empty part of its members; every
+# member it leaves out makes it less specific, exactly like a parameter left out (factor 0.9 each)
+MEMBERS = ["k", "m", "n"]
+CONT_VAL = {"dict": {"k": 1, "m": 2, "n": 3}, "list": [1, 2, 3]}
+
+
+def cont_literal(kind, D):
+    if kind == "dict":
+        return "{" + ", ".join('"%s": %d' % (k, CONT_VAL["dict"][k]) for k in D) + "}"
+    return "[" + ", ".join(str(CONT_VAL["dict"][k]) for k in D) + "]"
 
 
 def fname(i):
@@ -50,7 +60,7 @@ def render(flows):
         if f["prio"] is not None:
             src += "  priority %s\n" % f["prio"]
         src += PRELUDES.get(f.get("prelude"), "")
-        args = ", ".join("%s=%s" % (p, 99 if (f["mismatch"] and p == f["S"][0]) else VAL[p]) for p in f["S"])
+        args = ", ".join(["%s=%s" % (p, 99 if (f["mismatch"] and p == f["S"][0]) else VAL[p]) for p in f["S"]] + (["d=" + cont_literal(f["cont"], f["D"])] if f.get("D") else []))
         aargs = "" if f["aarg"] is None else "x=%d" % f["aarg"]
         if f.get("scoped"):
             # the action is started inside the scope of an or-group (`await <action> or <flow>`); afterwards the flow goes on
@@ -83,6 +93,7 @@ def gen_program(rng, flows=None):
         n = rng.randint(2, 5)
         flows = []
         alias = {}
+        cont = rng.choice(["dict", "list"]) if rng.random() < 0.25 else None
         if rng.random() < 0.35:
             alias = dict(zip(rng.sample(["A", "B", "C"], 2), rng.sample(NAME_POOL, 2)))
         for i in range(n):
@@ -103,13 +114,24 @@ def gen_program(rng, flows=None):
                 # the flow forks right after its match: `start A(x=1) or A(x=2)` (one alternative is picked); its own action name
                 act, aarg = "F%d" % i, None
             flows.append(dict(i=i, S=S, mismatch=mismatch, prio=prio, loop=loop, act=act, aarg=aarg, override=override, prelude=prelude, fork=fork, scoped=scoped))
+            if cont:
+                flows[-1]["cont"] = cont
+                flows[-1]["D"] = [k for k in MEMBERS if rng.random() < 0.6] if rng.random() < 0.75 else []
     ev = {"type": "Ev", "a": 1, "b": 2, "c": 3}
-    return {"flows": flows, "src": render(flows), "event": ev}
+    cont = next((f["cont"] for f in flows if f.get("cont")), None)
+    if cont:
+        ev["d"] = CONT_VAL[cont]
+    return {"flows": flows, "src": render(flows), "event": ev, "cont": cont}
 
 
 def key_of(f):
     score = 1.0
-    score *= 0.9 ** (len(PARAMS) - len(f["S"]))
+    if f.get("D"):
+        score *= 0.9 ** (len(MEMBERS) - len(f["D"]))  # the members of the container the pattern does not mention
+    if f.get("cont"):
+        score *= 0.9 ** (len(PARAMS) + 1 - len(f["S"]) - (1 if f.get("D") else 0))
+    else:
+        score *= 0.9 ** (len(PARAMS) - len(f["S"]))
     if f["prio"] is not None:
         score *= f["prio"]
     return score
@@ -205,6 +227,8 @@ def execute(g, script):
             f0 = cand[0]
             for p in PARAMS:
                 ev[p] = 99 if (p == f0["S"][0]) else VAL[p]
+            if g.get("cont"):
+                ev["d"] = CONT_VAL[g["cont"]]
         if api is not None:
             out = api.run(dict(ev))
             st = api.st
